@@ -92,11 +92,36 @@ fn rt_cbor<V: Serialize + DeserializeOwned + PartialEq>(v: &V, flat: impl Fn(&V)
         Err(p) => Err(format!("PANIC:{}", p)),
     }
 }
+/// a reader that hands out the bytes in small irregular chunks (a pipe, a socket, a buffered file): `read` may
+/// return fewer bytes than asked for without being at the end
+#[cfg(feature = "borsh")]
+struct ChunkReader<'a> {
+    data: &'a [u8],
+    pos: usize,
+    k: usize,
+}
+#[cfg(feature = "borsh")]
+impl<'a> borsh::io::Read for ChunkReader<'a> {
+    fn read(&mut self, buf: &mut [u8]) -> borsh::io::Result<usize> {
+        self.k = (self.k * 7 + 3) % 13;
+        let n = buf.len().min(self.k + 1).min(self.data.len() - self.pos);
+        buf[..n].copy_from_slice(&self.data[self.pos..self.pos + n]);
+        self.pos += n;
+        Ok(n)
+    }
+}
+
 #[cfg(feature = "borsh")]
 fn rt_borsh<V: borsh::BorshSerialize + borsh::BorshDeserialize + PartialEq>(v: &V, flat: impl Fn(&V) -> Vec<f64>) -> Result<(Vec<f64>, bool), String> {
     match guard(|| -> Result<(Vec<f64>, bool), String> {
         let s = borsh::to_vec(v).map_err(|e| format!("serialize: {}", e))?;
         let w: V = borsh::from_slice(&s).map_err(|e| format!("deserialize: {}", e))?;
+        // the same bytes through a reader that answers reads partially must give the same value
+        let mut rd = ChunkReader { data: &s, pos: 0, k: s.len() % 11 };
+        let w2: V = borsh::from_reader(&mut rd).map_err(|e| format!("deserialize from a chunked reader: {}", e))?;
+        if flat(&w2).iter().map(|x| x.to_bits()).ne(flat(&w).iter().map(|x| x.to_bits())) {
+            return Err("deserialize from a chunked reader gives a different value than from a slice".to_string());
+        }
         Ok((flat(&w), &w == v))
     }) {
         Ok(r) => r,
